@@ -54,9 +54,10 @@ Record st := mk_st {
   lvl : nat;              (* if-nesting level *)
   synced : option nat;    (* Some l: a sync with checked error was completed at if-level l *)
   pend : nat;             (* 0 none; 1 saw the sync call; 2 inside its `if err != nil`; 3 saw the return *)
-  pend_lvl : nat }.
+  pend_lvl : nat;
+  loops : list bool }.    (* enclosing loops, innermost first; true = plain `for`, false = `for range` *)
 
-Definition st0 : st := mk_st 0 0 None 0 0.
+Definition st0 : st := mk_st 0 0 None 0 0 [].
 
 Definition opens_lit (e : ev) : bool :=
   ev_is "funclit" "" e || ev_is "defer" "funclit" e || ev_is "go" "funclit" e.
@@ -68,33 +69,40 @@ Definition drop_above (s : option nat) (l : nat) : option nat :=
 
 (* None = a mutating call that is not dominated by a checked sync *)
 Definition step (syncs muts : list string) (s : st) (e : ev) : option st :=
-  if opens_lit e then Some (mk_st (S (depth s)) (lvl s) (synced s) (pend s) (pend_lvl s))
-  else if closes_lit e then Some (mk_st (pred (depth s)) (lvl s) (synced s) (pend s) (pend_lvl s))
+  if opens_lit e then Some (mk_st (S (depth s)) (lvl s) (synced s) (pend s) (pend_lvl s) (loops s))
+  else if closes_lit e then Some (mk_st (pred (depth s)) (lvl s) (synced s) (pend s) (pend_lvl s) (loops s))
   else if negb (Nat.eqb (depth s) 0) then Some s
   else if fst e =? "call" then
-    if mem_str (snd e) syncs then Some (mk_st 0 (lvl s) None 1 (lvl s))
+    if mem_str (snd e) syncs then Some (mk_st 0 (lvl s) None 1 (lvl s) (loops s))
     else if mem_str (snd e) muts then
       match synced s with Some _ => Some s | None => None end
     else Some s
   else if fst e =? "if" then
     let p := if Nat.eqb (pend s) 1 then (if snd e =? "err != nil" then 2%nat else 0%nat) else pend s in
-    Some (mk_st 0 (S (lvl s)) (synced s) p (pend_lvl s))
+    Some (mk_st 0 (S (lvl s)) (synced s) p (pend_lvl s) (loops s))
   else if fst e =? "return" then
     let p := if Nat.eqb (pend s) 2 && Nat.eqb (lvl s) (S (pend_lvl s)) then 3%nat else pend s in
-    Some (mk_st 0 (lvl s) (synced s) p (pend_lvl s))
+    Some (mk_st 0 (lvl s) (synced s) p (pend_lvl s) (loops s))
   else if fst e =? "else" then
     (* what was established inside the then-branch does not hold in the else-branch *)
     let p := if Nat.eqb (lvl s) (S (pend_lvl s)) then 0%nat else pend s in
-    Some (mk_st 0 (lvl s) (drop_above (synced s) (pred (lvl s))) p (pend_lvl s))
+    Some (mk_st 0 (lvl s) (drop_above (synced s) (pred (lvl s))) p (pend_lvl s) (loops s))
   else if fst e =? "endif" then
     let l := pred (lvl s) in
     if Nat.eqb (lvl s) (S (pend_lvl s)) && negb (Nat.eqb (pend s) 0) then
       (* closing the error check of the pending sync *)
-      if Nat.eqb (pend s) 3 then Some (mk_st 0 l (Some l) 0 0) else Some (mk_st 0 l None 0 0)
-    else Some (mk_st 0 l (drop_above (synced s) l) (pend s) (pend_lvl s))
-  else if ev_is "for" "" e || ev_is "endfor" "" e then
-    (* a (re-)entered loop body must sync again *)
-    Some (mk_st 0 (lvl s) None 0 0)
+      if Nat.eqb (pend s) 3 then Some (mk_st 0 l (Some l) 0 0 (loops s)) else Some (mk_st 0 l None 0 0 (loops s))
+    else Some (mk_st 0 l (drop_above (synced s) l) (pend s) (pend_lvl s) (loops s))
+  else if fst e =? "for" then
+    (* a (re-)entered plain loop body must sync again; range loops over data keep the view *)
+    if snd e =? "" then Some (mk_st 0 (lvl s) None 0 0 (true :: loops s))
+    else Some (mk_st 0 (lvl s) (synced s) (pend s) (pend_lvl s) (false :: loops s))
+  else if fst e =? "endfor" then
+    match loops s with
+    | true :: r => Some (mk_st 0 (lvl s) None 0 0 r)
+    | false :: r => Some (mk_st 0 (lvl s) (synced s) (pend s) (pend_lvl s) r)
+    | [] => Some s
+    end
   else Some s.
 
 Fixpoint scan (syncs muts : list string) (s : st) (evs : list ev) : option st :=
